@@ -10,8 +10,13 @@ Oracles (all plain datetime / plain loops, none of them calls pyg_base):
                   into the following month; cross-checked against "first of target month + (day-1) days"
   compound      : left fold of the single-part oracle
 
-A bump part is spelled [n, unit, form]; form bit 0 = explicit '+' sign (only when n >= 0), bit 1 = upper-case unit letter.
-A start is [ordinal, seconds, microseconds].
+Sessions (sub-check `session`): start and bump objects are built once and used in 2-4 calls whose bump lists are prefixes / extensions /
+permutations of one another, partly through one caller-owned list; every call is judged by the single-call oracle (left fold).
+
+A bump part is spelled [n, unit, form]; form bit 0 = explicit '+' sign (only when n >= 0), bit 1 = upper-case unit letter,
+bit 2 = the number is zero padded ('05b', '-012d', '+00h'; a zero written '-00' when there is no '+').
+A start is [ordinal, seconds, microseconds]; `raw` says in which raw type the start is handed over (0 datetime, 1 pd.Timestamp,
+2 numpy datetime64[us], 3 datetime.date - midnight starts only).
 """
 import datetime
 
@@ -20,16 +25,26 @@ from hypothesis import strategies as st
 from pv.core import Sub, EnumSub, Violation, HarnessError, call
 
 ASSUMPTIONS = [
-    'starts are naive datetime.datetime objects with 1900-01-01 <= t < 2300-01-01 (one 400-year cycle, 146097 days); other spellings of t (date, str, int, Timestamp) are the subject of C04',
+    'starts are naive instants with 1900-01-01 <= t < 2300-01-01 (one 400-year cycle, 146097 days), handed over as datetime.datetime (7 cases of 8) or as the same instant in another raw type: '
+    'pd.Timestamp, numpy datetime64[us], and (midnight only) datetime.date; for those only the VALUE of the result is judged (a naive datetime.datetime or subclass equal to the oracle), '
+    'because datetime arithmetic on a Timestamp gives a Timestamp; strings and numbers as starts stay the subject of C04',
     'observation through dt_bump(t, bump), dt_bump(t, *bumps), dt(t, bump), dt(t, *bumps); dt(bump) "relative to today" is never generated (it reads the wall clock)',
     'n in [-60, 60] for every part; in the composition law a, b have the same sign and |a+b| <= 60 so that all three bumps are inside the quantifier',
     'm/q/y parts are only applied when the running time of day is midnight (the statement claims them at midnight only), also inside compound tenors: '
     'tenors holding an m/q/y part start at midnight, and an h/n/s part in front of a later m/q/y part is a whole number of days (24h/48h) or is replaced by a day-based unit',
     'monotonicity of business-day bumps is demanded at day granularity: t1 <= t2 with the same time of day (the roll-forward keeps the time of day, so Saturday 10:00 vs Monday 09:00 is not a meaningful pair)',
-    'spellings: optional "+" sign, upper or lower case unit letter, no white space, no zero padding; named tenors spot/on/o/n/tn/t/n/sn/s/n (any case) are taken as spellings of 0b/1b/2b/3b (documented in the dt_bump docstring)',
-    'integer bumps are python ints or numpy int64/int32/int16 (is_int accepts both) in [-60, 60] (days); timedelta bumps are within +-61 days with second and microsecond parts',
+    'spellings: optional "+" sign, upper or lower case unit letter, optionally zero-padded digits ("05b", "-012d", "+00h", "-00b": the tokenizer takes [0-9]+ and int() reads them), no white space '
+    '(the tokenizer is anchored and a remainder is read as a time zone name); named tenors spot/on/o/n/tn/t/n/sn/s/n (any case) are taken as spellings of 0b/1b/2b/3b (documented in the dt_bump docstring)',
+    'integer bumps are python ints or numpy int64/int32/int16 (is_int accepts both) in [-60, 60] (days); timedelta bumps are within +-61 days with second and microsecond parts, as datetime.timedelta '
+    'or as pandas Timedelta (a datetime.timedelta subclass); numpy timedelta64 and dateutil relativedelta bumps are not generated (the statement speaks of integers and timedeltas only)',
     'separate bumps of one call may mix strings, ints, numpy ints and timedeltas (a d part as int / numpy int / timedelta, a w/h/n/s part as timedelta); '
-    'bumps may also be passed as ONE list argument (dt_bump and dt unwrap it with as_list): same result, and the caller\'s list must be left unchanged',
+    'bumps may also be passed as ONE list argument (dt_bump and dt unwrap it with as_list): same result, and the caller\'s list must be left unchanged (same objects, same order); '
+    'the list may hold bumps of several raw types, a single bump, or nothing (then, as with no bump argument at all, the result is the start itself); '
+    'a tuple as the one argument is NOT generated: as_list only unwraps a list, so dt_bump(t, (a, b)) is not a spelling the library offers',
+    'sessions: start and bump objects are built once and used in 2-4 calls (prefixes / extensions / permutations / repetitions of the previous bump list, the same object twice in one call, '
+    'one caller-owned list edited in place between calls); each call is judged on its own by the left fold, i.e. dt_bump / dt are taken to be functions of their arguments\' values only',
+    'keywords that have no say over a scalar bump are passed in a share of the session calls and must not change the result: aggregate= (dt_bump: documented for merging equal stamps of a bumped time SERIES only), '
+    'dialect= (dt: string parsing only), tzinfo=None (dt: the default spelled out); tzinfo=<zone> and none= are not generated (they change / do not concern the claimed result)',
     'same-date siblings: after a bump from t the same bump is asked from another time of day of the same date (half of them differ in the microsecond only) and must follow its own oracle',
     'inverse law +x then -x: fixed-length units/ints/timedeltas from any start, business days from a weekday start, m/q/y from midnight with day of month <= 28',
 ]
@@ -58,9 +73,37 @@ def mk(tspec):
     return datetime.datetime.fromordinal(o) + datetime.timedelta(seconds=sec, microseconds=us)
 
 
+RAWS = ['datetime', 'Timestamp', 'datetime64', 'date']
+
+
+def as_raw(t, raw):
+    """the instant t (a datetime) in another raw type: 1 pd.Timestamp, 2 numpy datetime64[us], 3 datetime.date (midnight only)"""
+    if not raw:
+        return t
+    if raw == 1:
+        import pandas as pd
+        return pd.Timestamp(t)
+    if raw == 2:
+        import numpy as np
+        return np.datetime64(t, 'us')
+    if raw == 3:
+        if t.hour or t.minute or t.second or t.microsecond:
+            raise HarnessError('a datetime.date start cannot carry a time of day: %r' % t)
+        return datetime.date(t.year, t.month, t.day)
+    raise HarnessError('unknown raw type %r' % raw)
+
+
+def _raw_class(raw):
+    return ['raw_start', 'raw_start=' + RAWS[raw]] if raw else []
+
+
 def fmt(n, unit, form=0):
+    u = unit.upper() if form & 2 else unit
+    if form & 4:
+        sign = '-' if n < 0 or (n == 0 and not form & 1) else '+' if form & 1 else ''
+        return '%s%s%s' % (sign, ('%02i' if abs(n) < 10 else '%03i') % abs(n), u)
     sign = '+' if (form & 1) and n >= 0 else ''
-    return '%s%i%s' % (sign, n, unit.upper() if form & 2 else unit)
+    return '%s%i%s' % (sign, n, u)
 
 
 def fmt_parts(parts):
@@ -77,12 +120,16 @@ def _bump(api, t, *bumps):
         raise Violation('%s(%r, %s): %s' % (api, t, ', '.join(repr(b) for b in bumps), v))
 
 
-def _is_dt(r):
+def _is_dt(r, loose=False):
+    """a naive datetime.datetime; `loose` (raw-typed starts / pandas timedeltas only) also admits a subclass such as pd.Timestamp,
+    which is what datetime arithmetic on such operands gives - the value is what the statement fixes"""
+    if loose:
+        return isinstance(r, datetime.datetime) and r.tzinfo is None
     return type(r) is datetime.datetime and r.tzinfo is None
 
 
-def _expect(api, t, bumps, got, exp, why):
-    if not (_is_dt(got) and got == exp):
+def _expect(api, t, bumps, got, exp, why, loose=False):
+    if not (_is_dt(got, loose) and got == exp):
         raise Violation('%s(%r, %s) = %r, expected %r (%s)' % (api, t, ', '.join(repr(b) for b in bumps), got, exp, why))
 
 
@@ -169,7 +216,8 @@ def _overflow(t, n, unit):
 
 _n = st.one_of(st.integers(-NMAX, -1), st.integers(1, NMAX), st.integers(-NMAX, -1), st.integers(1, NMAX), st.integers(-7, 7),
                st.sampled_from([-60, -59, -11, -10, -6, -5, -4, -1, 0, 1, 4, 5, 6, 10, 11, 59, 60]))
-_form = st.integers(0, 3)
+# spelling of one part: bits 0/1 as before; one part in seven is zero padded as well (bit 2)
+_form = st.sampled_from([0, 1, 2, 3] * 6 + [4, 5, 6, 7])
 _tod = st.one_of(
     st.just([0, 0]),
     st.tuples(st.sampled_from([1, 3600, 36000, 43200, 86399]), st.sampled_from([0, 0, 1, 500000, 999999])).map(list),
@@ -215,7 +263,61 @@ def _ymd_ordinal(ymd):
 _cal_day = st.tuples(st.one_of(st.integers(1900, 2299), st.sampled_from([1900, 1904, 1999, 2000, 2024, 2096, 2100, 2200, 2296, 2299])),
                      st.one_of(st.integers(1, 12), st.sampled_from([1, 2, 3, 12])),
                      st.one_of(st.integers(1, 31), st.sampled_from([1, 28, 29, 30, 31]))).map(_ymd_ordinal)
-_ordinal = st.one_of(st.integers(O_MIN, O_MAX), _cal_day)
+
+
+def _is_leap(y):
+    return y % 4 == 0 and (y % 100 != 0 or y % 400 == 0)
+
+
+def _boundary_ordinal(x):
+    """calendar boundary days as START values: 28 Feb of a non-leap year (the last day of its month AND a day every month has),
+    29 Feb, the 30th / 31st, 31 Dec, 1 Jan, 1 Mar"""
+    y, which = x
+    if which == 0:
+        while _is_leap(y):
+            y = y + 1 if y < 2299 else y - 1
+        return datetime.date(y, 2, 28).toordinal()
+    if which == 1:
+        while not _is_leap(y):
+            y = y + 1 if y < 2296 else y - 1
+        return datetime.date(y, 2, 29).toordinal()
+    if which == 2:
+        return datetime.date(y, 12, 31).toordinal()
+    if which == 3:
+        return datetime.date(y, 1, 1).toordinal()
+    if which == 4:
+        return datetime.date(y, 3, 1).toordinal()
+    m = [1, 3, 4, 5, 6, 7, 8, 9, 10, 11, 12][which % 11]
+    return datetime.date(y, m, 30 if which < 16 else _dim(y, m)).toordinal()
+
+
+_boundary_day = st.tuples(st.one_of(st.integers(1900, 2299), st.sampled_from([1900, 1999, 2000, 2023, 2024, 2100, 2299])),
+                          st.sampled_from([0, 0, 0, 1, 1, 2, 2, 3, 3, 4] + list(range(5, 27)))).map(_boundary_ordinal)
+_ordinal = st.sampled_from([0, 0, 0, 1, 1, 1, 2]).flatmap(lambda i: (st.integers(O_MIN, O_MAX), _cal_day, _boundary_day)[i])
+
+
+def _start_class(t):
+    """labels of class 19 (calendar boundary days as start values)"""
+    out = []
+    if t.month == 2 and t.day == 28 and not _is_leap(t.year):
+        out.append('start_feb28_nonleap')
+    if t.month == 2 and t.day == 29:
+        out.append('start_feb29')
+    if t.month == 12 and t.day == 31:
+        out.append('start_dec31')
+    if t.month == 1 and t.day == 1:
+        out.append('start_jan1')
+    if t.day >= 30:
+        out.append('start_30_31')
+    return out
+
+
+@st.composite
+def _raw(draw, tod):
+    """raw type of the start: datetime in 7 cases of 8, otherwise pd.Timestamp / numpy datetime64 / (from midnight) datetime.date"""
+    if draw(st.sampled_from([True] * 7 + [False])):
+        return 0
+    return draw(st.sampled_from([1, 2, 3, 3] if list(tod) == [0, 0] else [1, 2]))
 
 
 # ============================================================================= 1. business days (hypothesis)
@@ -232,34 +334,38 @@ def _bday_case(draw):
     bmag = draw(st.integers(0, NMAX - abs(n)))
     neg = n < 0 or (n == 0 and draw(st.booleans()))
     return dict(t=[o, tod[0], tod[1]], n=n, form=draw(_form), name=name, k=draw(st.integers(0, 9)), b=-bmag if neg else bmag,
-                api=draw(st.sampled_from(['dt_bump', 'dt_bump', 'dt'])), sib=draw(_sibling(tod)))
+                api=draw(st.sampled_from(['dt_bump', 'dt_bump', 'dt'])), sib=draw(_sibling(tod)), raw=draw(_raw(tod)))
 
 
 def run_bday(spec):
-    t = mk(spec['t'])
+    t0 = mk(spec['t'])
+    raw = spec.get('raw', 0)
+    loose = bool(raw)
+    t = as_raw(t0, raw)              # the start in its raw type; the oracles work on the datetime t0
     n, form, api = spec['n'], spec['form'], spec['api']
     s = spec['name'] or fmt(n, 'b', form)
-    exp = o_bday(t, n)
-    if exp != o_bday_table(t, n):
-        raise HarnessError('walk oracle and table oracle disagree at %r %+ib' % (t, n))
+    exp = o_bday(t0, n)
+    if exp != o_bday_table(t0, n):
+        raise HarnessError('walk oracle and table oracle disagree at %r %+ib' % (t0, n))
     r = _bump(api, t, s)
     _expect(api, t, [s], r, exp, 'the %s weekday %s, same time of day%s'
-            % (abs(n), 'after' if n >= 0 else 'before', '; weekend start rolls forward to Monday first' if t.weekday() >= 5 else ''))
+            % (abs(n), 'after' if n >= 0 else 'before', '; weekend start rolls forward to Monday first' if t0.weekday() >= 5 else ''), loose)
     if r.weekday() >= 5:
         raise Violation('%s(%r, %r) = %r is not a weekday' % (api, t, s, r))
     # monotone in t (day granularity, same time of day)
-    t2 = t + spec['k'] * DAY
-    r2 = _bump(api, t2, s)
-    _expect(api, t2, [s], r2, o_bday(t2, n), 'business-day walk')
+    t2 = t0 + spec['k'] * DAY
+    r2 = _bump(api, as_raw(t2, raw), s)
+    _expect(api, as_raw(t2, raw), [s], r2, o_bday(t2, n), 'business-day walk', loose)
     if not r <= r2:
         raise Violation('not monotone in t: %r <= %r but bumped by %r they give %r > %r' % (t, t2, s, r, r2))
-    cls = ['n>0' if n > 0 else 'n<0' if n < 0 else 'n=0', 'api=' + api] + _tod_class(spec['t'])
+    cls = ['n>0' if n > 0 else 'n<0' if n < 0 else 'n=0', 'api=' + api] + _tod_class(spec['t']) + _start_class(t0) + _raw_class(raw)
     if spec.get('sib') is not None:
         # same date, other time of day, same bump - asked right after the first one
         ts = mk([spec['t'][0]] + spec['sib'])
-        rs = _bump(api, ts, s)
-        _expect(api, ts, [s], rs, o_bday(ts, n), 'business-day walk; asked right after the same bump from %r' % t)
+        rs = _bump(api, as_raw(ts, raw if raw != 3 else 1), s)
+        _expect(api, ts, [s], rs, o_bday(ts, n), 'business-day walk; asked right after the same bump from %r' % t, loose)
         cls.append(_sib_class(spec))
+    t = t0
     weekend = t.weekday() >= 5
     if weekend:
         cls.append('start_weekend')
@@ -299,6 +405,8 @@ def run_bday(spec):
         cls.append('plus_sign')
     if form & 2:
         cls.append('upper_case')
+    if form & 4 and not spec['name']:
+        cls.append('zero_padded')
     return dict(nt=weekend or crosses, cls=cls)
 
 
@@ -429,9 +537,14 @@ def _fixed_case(draw):
         bump = ['npint', draw(_n), draw(st.sampled_from(['int64', 'int64', 'int32', 'int16']))]
     elif kind == 'td':
         bump = ['td', draw(st.integers(-NMAX, NMAX)), draw(st.one_of(st.just(0), st.integers(-86399, 86399))), draw(st.sampled_from([0, 0, 1, -1, 500000]))]
+        if draw(st.integers(0, 3)) == 0:
+            # the same duration as a pandas Timedelta (a datetime.timedelta subclass whose .microseconds attribute means something else);
+            # these carry a microsecond part of 1000 or more in two cases out of three
+            bump[3] = draw(st.sampled_from([bump[3], 500000, 1001, -999999, 123456, 999]))
+            bump.append('pd')
     else:
         bump = ['p', draw(_n), kind, draw(_form)]
-    return dict(t=[o, tod[0], tod[1]], bump=bump, api=draw(st.sampled_from(['dt_bump', 'dt'])), sib=draw(_sibling(tod)))
+    return dict(t=[o, tod[0], tod[1]], bump=bump, api=draw(st.sampled_from(['dt_bump', 'dt'])), sib=draw(_sibling(tod)), raw=draw(_raw(tod)))
 
 
 def _build_fixed(bump):
@@ -443,6 +556,12 @@ def _build_fixed(bump):
         return getattr(np, bump[2])(bump[1]), getattr(np, bump[2])(-bump[1]), bump[1] * DAY
     if bump[0] == 'td':
         td = datetime.timedelta(days=bump[1], seconds=bump[2], microseconds=bump[3])
+        if len(bump) > 4:
+            import pandas as pd
+            ptd = pd.Timedelta(days=bump[1], seconds=bump[2], microseconds=bump[3])
+            if not (ptd == td and -ptd == -td):
+                raise HarnessError('pandas Timedelta built for %r is %r' % (td, ptd))
+            return ptd, -ptd, td
         return td, -td, td
     _, n, unit, form = bump
     return fmt(n, unit, form), fmt(-n, unit, form & 2), n * FIXED[unit]
@@ -453,27 +572,38 @@ def zero_bump(bump):
 
 
 def run_fixed(spec):
-    t = mk(spec['t'])
+    t0 = mk(spec['t'])
+    raw = spec.get('raw', 0)
+    pdtd = spec['bump'][0] == 'td' and len(spec['bump']) > 4
+    loose = bool(raw) or pdtd
+    t = as_raw(t0, raw)
     api = spec['api']
     b, inv, delta = _build_fixed(spec['bump'])
-    exp = t + delta
+    exp = t0 + delta
     r = _bump(api, t, b)
-    _expect(api, t, [b], r, exp, 'adds exactly %r' % delta)
+    _expect(api, t, [b], r, exp, 'adds exactly %r' % delta, loose)
     back = _bump(api, r, inv)
-    if not (_is_dt(back) and back == t):
+    if not (_is_dt(back, loose) and back == t0):
         raise Violation('%s: %r bumped by %r then by %r returns to %r' % (api, t, b, inv, back))
     kind = spec['bump'][0] if spec['bump'][0] != 'p' else 'unit=' + spec['bump'][2]
-    cls = [kind, 'api=' + api] + _tod_class(spec['t'])
+    cls = [kind, 'api=' + api] + _tod_class(spec['t']) + _start_class(t0) + _raw_class(raw)
+    if pdtd:
+        cls.append('pandas_timedelta')
+        if abs(spec['bump'][3]) >= 1000:
+            cls.append('pandas_timedelta_ms')
     if spec.get('sib') is not None:
         ts = mk([spec['t'][0]] + spec['sib'])
-        rs = _bump(api, ts, b)
-        _expect(api, ts, [b], rs, ts + delta, 'adds exactly %r; asked right after the same bump from %r' % (delta, t))
+        rs = _bump(api, as_raw(ts, raw if raw != 3 else 1), b)
+        _expect(api, ts, [b], rs, ts + delta, 'adds exactly %r; asked right after the same bump from %r' % (delta, t), loose)
         cls.append(_sib_class(spec))
+    t = t0
     if spec['bump'][0] == 'p':
         if spec['bump'][3] & 2:
             cls.append('upper_case')
         if spec['bump'][3] & 1 and spec['bump'][1] >= 0:
             cls.append('plus_sign')
+        if spec['bump'][3] & 4:
+            cls.append('zero_padded')
     if zero_bump(spec['bump']):
         cls.append('zero_bump')
     zero = delta == datetime.timedelta(0)
@@ -501,18 +631,35 @@ _late_day = st.one_of(
 
 @st.composite
 def _month_case(draw):
-    return dict(t=[draw(st.one_of(_cal_day, _late_day, st.integers(O_MIN, O_MAX))), 0, 0], n=draw(_n), unit=draw(st.sampled_from('mqy')),
-                form=draw(_form), api=draw(st.sampled_from(['dt_bump', 'dt'])))
+    if draw(st.sampled_from([True] + [False] * 11)):
+        # 28 February of a non-leap year (the last day of its month, and a day every month has) bumped into the February of a leap year
+        y = draw(st.one_of(st.integers(1900, 2299), st.sampled_from([1900, 1903, 2023, 2099, 2100, 2101, 2299])))
+        while _is_leap(y):
+            y = y + 1 if y < 2299 else y - 1
+        unit = draw(st.sampled_from('mqy'))
+        per_year = 12 // MONTHS[unit]
+        dy = draw(st.sampled_from([d for d in range(-(NMAX // per_year), NMAX // per_year + 1) if _is_leap(y + d)]))
+        return dict(t=[datetime.date(y, 2, 28).toordinal(), 0, 0], n=dy * per_year, unit=unit, form=draw(_form), api=draw(st.sampled_from(['dt_bump', 'dt'])), raw=draw(_raw([0, 0])))
+    return dict(t=[draw(st.one_of(_cal_day, _late_day, st.integers(O_MIN, O_MAX), _cal_day, _late_day, st.integers(O_MIN, O_MAX), _boundary_day)), 0, 0],
+                n=draw(st.one_of(_n, _n, _n, _n, st.sampled_from([-12, -8, -4, -3, -1, 1, 3, 4, 8, 12]))), unit=draw(st.sampled_from('mqy')),
+                form=draw(_form), api=draw(st.sampled_from(['dt_bump', 'dt'])), raw=draw(_raw([0, 0])))
 
 
 def run_month(spec):
     t = mk(spec['t'])
+    raw = spec.get('raw', 0)
     n, unit, form, api = spec['n'], spec['unit'], spec['form'], spec['api']
     s = fmt(n, unit, form)
     exp = o_months(t, n * MONTHS[unit])
-    r = _bump(api, t, s)
-    _expect(api, t, [s], r, exp, 'month %+i, day of month kept if it exists, otherwise excess days roll into the following month' % (n * MONTHS[unit]))
-    cls = ['unit=' + unit, 'api=' + api, 'n>0' if n > 0 else 'n<0' if n < 0 else 'n=0']
+    r = _bump(api, as_raw(t, raw), s)
+    _expect(api, as_raw(t, raw), [s], r, exp, 'month %+i, day of month kept if it exists, otherwise excess days roll into the following month' % (n * MONTHS[unit]), bool(raw))
+    cls = ['unit=' + unit, 'api=' + api, 'n>0' if n > 0 else 'n<0' if n < 0 else 'n=0'] + _start_class(t) + _raw_class(raw)
+    if form & 4:
+        cls.append('zero_padded')
+    if 'start_feb28_nonleap' in cls and _is_leap(exp.year) and exp.month == 2:
+        cls.append('feb28_nonleap_to_leap_february')
+    if 'start_feb28_nonleap' in cls and n and _dim(exp.year, exp.month) > 28 and exp.day == 28:
+        cls.append('month_end_to_longer_month')
     if t.day <= 28:
         si = fmt(-n, unit, form & 2)
         back = _bump(api, r, si)
@@ -600,7 +747,7 @@ def run_single(spec):
     unit, n = spec['unit'], spec['n']
     t = mk(spec['t'])
     exp = o_part(t, n, unit)
-    bumps = [fmt(n, unit, f) for f in range(4) if f & 1 == 0 or n >= 0]
+    bumps = [fmt(n, unit, f) for f in (0, 1, 2, 3, 4, 7) if f & 1 == 0 or n >= 0]       # 4 and 7: zero padded
     if unit == 'd':
         bumps += [n, datetime.timedelta(days=n)]
     elif unit in FIXED:
@@ -664,7 +811,8 @@ def _valid(tod, parts):
     return True
 
 
-HOWS = ['compound', 'compound', 'compound', 'dt', 'multi', 'dt_multi', 'mixed', 'dt_mixed', 'list', 'dt_list']
+HOWS = ['compound', 'compound', 'compound', 'dt', 'multi', 'dt_multi', 'mixed', 'dt_mixed', 'list', 'dt_list', 'list_mixed', 'dt_list_mixed']
+MIXED = ('mixed', 'dt_mixed', 'list_mixed', 'dt_list_mixed')      # bumps of several raw types: as separate arguments or inside ONE list
 
 
 @st.composite
@@ -695,19 +843,19 @@ def _compound_case(draw):
         j = draw(st.integers(0, k - 1))
         parts[j][0] = 0
     how = draw(st.sampled_from(HOWS))
-    kinds = [draw(st.integers(0, 3)) for _ in range(k)]
-    if how in ('mixed', 'dt_mixed'):
+    kinds = [draw(st.integers(0, 4)) for _ in range(k)]
+    if how in MIXED:
         # at least one bump that can be passed as an int / numpy int / timedelta (a day part never leaves midnight)
         j = draw(st.integers(0, k - 1))
         if parts[j][1] not in FIXED:
             cand = parts[:j] + [[parts[j][0], 'd', parts[j][2]]] + parts[j + 1:]
             if _valid(tod, cand):
                 parts = cand
-        kinds[j] = draw(st.integers(1, 3))
+        kinds[j] = draw(st.integers(1, 4))
     sib = None
     if not any(p[1] in MONTHS for p in parts):
         sib = draw(_sibling(tod))
-    return dict(t=[draw(_ordinal), tod[0], tod[1]], parts=parts, api=how, kinds=kinds, sib=sib)
+    return dict(t=[draw(_ordinal), tod[0], tod[1]], parts=parts, api=how, kinds=kinds, sib=sib, raw=draw(_raw(tod)))
 
 
 def _as_object(part, kind):
@@ -720,7 +868,15 @@ def _as_object(part, kind):
         return np.int64(n)
     if unit in FIXED and kind == 3:
         return n * FIXED[unit]
+    if unit in FIXED and kind == 4:
+        import pandas as pd
+        return pd.Timedelta(n * FIXED[unit])
     return fmt(n, unit, form)
+
+
+def _same_objects(a, b):
+    """the list a holds exactly the objects of the snapshot b (identity, in order)"""
+    return len(a) == len(b) and all(x is y for x, y in zip(a, b))
 
 
 def _order_matters(t, tod, parts, exp):
@@ -732,12 +888,14 @@ def _order_matters(t, tod, parts, exp):
 
 
 def run_compound(spec):
-    t = mk(spec['t'])
+    t0 = mk(spec['t'])
+    raw = spec.get('raw', 0)
+    t = as_raw(t0, raw)
     parts = spec['parts']
     tod = spec['t'][1:]
     if not _valid(tod, parts):
         raise HarnessError('month-based part applied off midnight: outside the claimed domain')
-    exp, seen = _fold(t, parts)
+    exp, seen = _fold(t0, parts)
     s = fmt_parts(parts)
     how = spec['api']
     api = 'dt' if how.startswith('dt') else 'dt_bump'
@@ -748,23 +906,36 @@ def run_compound(spec):
         bumps = [fmt(*q) for q in parts]
     elif how in ('mixed', 'dt_mixed'):
         bumps = [_as_object(q, kd) for q, kd in zip(parts, spec['kinds'])]
+    elif how in ('list_mixed', 'dt_list_mixed'):
+        given = [_as_object(q, kd) for q, kd in zip(parts, spec['kinds'])]
+        bumps = [given]                     # ONE argument that is a list of bumps of several raw types
     else:
         given = [fmt(*q) for q in parts]
         bumps = [given]                     # ONE argument that is a list of bumps
     snapshot = list(given) if given is not None else None
+    objects = given if given is not None else bumps
+    loose = bool(raw) or any(type(b).__name__ == 'Timedelta' for b in objects)
     why = 'parts applied left to right: %s' % ' then '.join('%+i%s' % (q[0], q[1]) for q in parts)
     r = _bump(api, t, *bumps)
-    _expect(api, t, bumps if given is None else [snapshot], r, exp, why)
-    if given is not None and given != snapshot:
+    _expect(api, t, bumps if given is None else [snapshot], r, exp, why, loose)
+    if given is not None and not _same_objects(given, snapshot):
         raise Violation('%s(%r, %r) changed the list of bumps it was given to %r' % (api, t, snapshot, given))
     signs = set(1 if q[0] > 0 else -1 for q in parts if q[0])
     units = set(q[1] for q in parts)
-    cls = ['k=%i' % len(parts), 'how=' + how] + sorted(seen) + _tod_class(spec['t'])
+    cls = ['k=%i' % len(parts), 'how=' + how] + sorted(seen) + _tod_class(spec['t']) + _start_class(t0) + _raw_class(raw)
     if spec.get('sib') is not None:
         ts = mk([spec['t'][0]] + spec['sib'])
-        rs = _bump(api, ts, *bumps)
-        _expect(api, ts, bumps if given is None else [snapshot], rs, _fold(ts, parts)[0], why + '; asked right after the same bump from %r' % t)
+        rs = _bump(api, as_raw(ts, raw if raw != 3 else 1), *bumps)
+        _expect(api, ts, bumps if given is None else [snapshot], rs, _fold(ts, parts)[0], why + '; asked right after the same bump from %r' % t, loose)
+        if given is not None and not _same_objects(given, snapshot):
+            raise Violation('%s(%r, %r) changed the list of bumps it was given to %r' % (api, ts, snapshot, given))
         cls.append(_sib_class(spec))
+    t = t0
+    if any(type(b).__name__ == 'Timedelta' for b in objects):
+        cls.append('pandas_timedelta')
+    as_text = [True] * len(parts) if how in ('compound', 'dt') else [isinstance(b, str) for b in objects]
+    if any(q[2] & 4 for q, txt in zip(parts, as_text) if txt):
+        cls.append('zero_padded')
     if len(signs) == 2:
         cls.append('mixed_sign')
     if units & set(MONTHS):
@@ -786,11 +957,13 @@ def run_compound(spec):
             cls.append('duplicate_first_last')
     if _order_matters(t, tod, parts, exp):
         cls.append('order_matters')
-    if how in ('mixed', 'dt_mixed') and len(set(type(b).__name__ for b in bumps)) >= 2:
+    if how in MIXED and len(set(type(b).__name__ for b in objects)) >= 2:
         cls.append('bump_types_mixed')
-        if not isinstance(bumps[-1], str) or not isinstance(bumps[0], str):
+        if given is not None:
+            cls.append('list_of_mixed_types')
+        if not isinstance(objects[-1], str) or not isinstance(objects[0], str):
             cls.append('non_string_bump_at_an_end')
-        if not isinstance(bumps[0], str):
+        if not isinstance(objects[0], str):
             cls.append('non_string_bump_first')
     if any(q[2] & 2 for q in parts) and any(not q[2] & 2 for q in parts):
         cls.append('mixed_case_units')
@@ -876,6 +1049,168 @@ def _compound_grid_quick(draw):
     return dict(units=units, t=STARTS[NMID + idx] if intraday else STARTS[idx])
 
 
+# ============================================================================= 10. sessions: several calls on the same objects
+
+KW = {'dt_bump': [['aggregate', 'last'], ['aggregate', 'first']],          # aggregate only says how a bumped time SERIES merges equal stamps
+      'dt': [['dialect', 'us'], ['dialect', 'uk'], ['tzinfo', None]]}      # dialect only steers the parsing of strings; tzinfo=None is the default
+
+
+@st.composite
+def _session_case(draw):
+    """One or two start objects and a pool of 2-4 bump objects (str / int / numpy int / timedelta / pandas Timedelta), all built ONCE;
+    then 2-4 calls whose bump lists are prefixes / extensions / permutations / repetitions of the previous call's. The bumps travel as
+    separate arguments, as a fresh list, as one compound string, or in ONE list object owned by the caller that the caller edits in place
+    between the calls. The first call may carry a keyword that has no say over a scalar bump; the later ones come without."""
+    month_family = draw(st.booleans())
+    npool = draw(st.sampled_from([2, 3, 3, 4]))
+    pool = []
+    for _ in range(npool):
+        if month_family:
+            u = draw(st.sampled_from('bdwmqymqyh'))
+            n = draw(st.sampled_from(H_DAYS)) if u == 'h' else draw(_n)
+        else:
+            u = draw(st.sampled_from('bbdwhns'))
+            n = draw(_n)
+        pool.append([n, u, draw(_form), draw(st.sampled_from([0, 0, 0, 1, 2, 3, 4]))])
+    tod = [0, 0] if month_family else draw(_tod)
+    o = draw(_ordinal)
+    t2 = None
+    if draw(st.sampled_from([True, False, False])):
+        # a second start: the same date at another time of day, or a day nearby (another weekday)
+        if not month_family and draw(st.booleans()):
+            t2 = [o] + draw(_sibling(tod))
+        else:
+            t2 = [min(O_MAX, o + draw(st.integers(1, 6))), tod[0], tod[1]]
+    how0 = draw(st.sampled_from(['args', 'args', 'list', 'shared', 'shared', 'string']))
+    api0 = draw(st.sampled_from(['dt_bump', 'dt_bump', 'dt']))
+    calls, prev = [], None
+    idx = st.integers(0, npool - 1)
+    for ci in range(draw(st.sampled_from([2, 3, 3, 4]))):
+        rel = draw(st.sampled_from(['prefix', 'extend', 'extend', 'permute', 'permute', 'same', 'repeat', 'free'])) if prev is not None else 'free'
+        if rel == 'prefix' and prev:
+            sel = prev[:draw(st.integers(0 if draw(st.sampled_from([True, False, False, False])) else min(1, len(prev) - 1), len(prev) - 1))]
+        elif rel == 'extend' and len(prev) < 3:
+            rest = [i for i in range(npool) if i not in prev]
+            sel = prev + [draw(st.sampled_from(rest)) if rest and draw(st.sampled_from([True, True, True, False])) else draw(idx)]
+        elif rel == 'permute' and len(prev) >= 2:
+            sel = list(reversed(prev)) if draw(st.booleans()) else prev[1:] + prev[:1]
+        elif rel == 'same':
+            sel = list(prev)
+        elif rel == 'repeat' and prev and len(prev) < 3:
+            sel = prev + [prev[-1]]                  # the same bump object twice in one call
+        elif draw(st.sampled_from([True, True, True, False])):
+            sel = list(draw(st.permutations(list(range(npool)))))[:draw(st.sampled_from([1, 2, 2, 3, 3]))]      # distinct objects
+        else:
+            sel = [draw(idx) for _ in range(draw(st.sampled_from([1, 2, 2, 3, 3])))]
+        prev = sel
+        how = how0 if draw(st.sampled_from([True, True, True, False])) else draw(st.sampled_from(['args', 'list', 'shared', 'string']))
+        api = api0 if draw(st.sampled_from([True, True, True, False])) else draw(st.sampled_from(['dt_bump', 'dt']))
+        kw = None
+        if ci == 0 and draw(st.sampled_from([True] + [False] * 5)):
+            kw = draw(st.sampled_from(KW[api]))
+        calls.append(dict(api=api, sel=sel, how=how, start=1 if t2 is not None and draw(st.sampled_from([True, False, False])) else 0, kw=kw))
+    return dict(t=[o, tod[0], tod[1]], t2=t2, raw=draw(_raw(tod)), pool=pool, calls=calls)
+
+
+def run_session(spec):
+    raw = spec.get('raw', 0)
+    specs = [spec['t']] + ([spec['t2']] if spec['t2'] is not None else [])
+    plain = [mk(ts) for ts in specs]                                                   # what the oracle folds from
+    starts = [as_raw(p, raw if (raw != 3 or not (ts[1] or ts[2])) else 1) for p, ts in zip(plain, specs)]   # what the library is handed, built once
+    pool = spec['pool']
+    objects = [_as_object(q[:3], q[3]) for q in pool]                                  # built once, the same objects in every call
+    shared = []                                                                        # the caller's own list of bumps
+    cls = set()
+    prev_sel, prev_exp, prev_start, prev_kw, prev_shared, nt = None, None, None, None, False, False
+    for ci, c in enumerate(spec['calls']):
+        sel, api, how = c['sel'], c['api'], c['how']
+        parts = [pool[i][:3] for i in sel]
+        tod = specs[c['start']][1:]
+        if not _valid(tod, parts):
+            raise HarnessError('month-based part applied off midnight: outside the claimed domain')
+        exp = _fold(plain[c['start']], parts)[0]
+        t = starts[c['start']]
+        given = None
+        if how == 'string':
+            args = [fmt_parts(parts)] if parts else []
+        elif how == 'args':
+            args = [objects[i] for i in sel]
+        elif how == 'list':
+            given = [objects[i] for i in sel]
+            args = [given]
+        else:
+            before = list(shared)
+            shared[:] = [objects[i] for i in sel]             # the caller edits the list object it already passed
+            if prev_shared and not _same_objects(before, shared):
+                cls.add('shared_list_edited_between_calls')
+            given = shared
+            args = [given]
+            cls.add('shared_list')
+        snapshot = list(given) if given is not None else None
+        kw = dict([c['kw']]) if c['kw'] else {}
+        loose = bool(raw) or any(type(objects[i]).__name__ == 'Timedelta' for i in sel)
+        f = _session_api(api)
+        try:
+            r = call(api, f, t, *args, **kw)
+        except Violation as v:
+            raise Violation('call %i of the session, %s: %s' % (ci + 1, _show(api, t, args, kw), v))
+        why = 'call %i of %i on the same objects; parts applied left to right: %s' % (
+            ci + 1, len(spec['calls']), ' then '.join('%+i%s' % (q[0], q[1]) for q in parts) or 'no bump at all')
+        if not (_is_dt(r, loose) and r == exp):
+            raise Violation('%s = %r, expected %r (%s)' % (_show(api, t, args if given is None else [snapshot], kw), r, exp, why))
+        if given is not None and not _same_objects(given, snapshot):
+            raise Violation('%s changed the list of bumps it was given to %r' % (_show(api, t, [snapshot], kw), given))
+        # ---- classes
+        if kw:
+            cls.add('option_keyword')
+            cls.add('option_' + c['kw'][0])
+        if prev_kw and not kw:
+            cls.add('keyword_first_then_plain')
+        if given is not None:
+            if len(given) == 0:
+                cls.add('empty_list')
+            if len(given) == 1:
+                cls.add('one_bump_in_a_list')
+            if len(set(type(b).__name__ for b in given)) >= 2:
+                cls.add('list_of_mixed_types')
+        if not sel:
+            cls.add('no_bump')
+        if len(set(sel)) < len(sel) and how != 'string':
+            cls.add('same_bump_object_twice')
+        if prev_sel is not None and c['start'] == prev_start:
+            if sel != prev_sel and prev_sel[:len(sel)] == sel:
+                cls.add('prefix_of_previous_call')
+            if sel != prev_sel and sel[:len(prev_sel)] == prev_sel:
+                cls.add('extends_previous_call')
+            if sel != prev_sel and sorted(sel) == sorted(prev_sel):
+                cls.add('permutation_of_previous_call')
+                if exp != prev_exp:
+                    cls.add('permutation_changes_result')
+            if sel == prev_sel:
+                cls.add('same_bumps_again')
+            if exp != prev_exp:
+                nt = True
+        if prev_sel is not None and c['start'] != prev_start:
+            cls.add('other_start_object')
+        prev_shared = how == 'shared'
+        prev_sel, prev_exp, prev_start, prev_kw = sel, exp, c['start'], kw
+    cls.add('calls=%i' % len(spec['calls']))
+    if any(type(b).__name__ == 'Timedelta' for b in objects):
+        cls.add('pandas_timedelta')
+    if len(set(c['how'] for c in spec['calls'])) == 1 and len(set(c['api'] for c in spec['calls'])) == 1:
+        cls.add('one_call_form_throughout')
+    return dict(nt=nt, cls=sorted(cls) + _start_class(plain[0]) + _raw_class(raw))
+
+
+def _session_api(api):
+    import pyg_base
+    return pyg_base.dt_bump if api == 'dt_bump' else pyg_base.dt
+
+
+def _show(api, t, args, kw):
+    return '%s(%s)' % (api, ', '.join([repr(t)] + [repr(a) for a in args] + ['%s=%r' % kv for kv in sorted(kw.items())]))
+
+
 # ============================================================================= registration
 
 SUBS = [
@@ -883,10 +1218,12 @@ SUBS = [
         rule="start anywhere in 1900-2299 (any time of day), n in [-60,60], spelled 'nb' with optional '+' / upper case or as named tenor spot/on/tn/sn, "
              'through dt_bump and dt; oracle: day-by-day walk skipping Sat/Sun after rolling a weekend start to Monday (cross-checked with a weekday table); '
              'lands on weekday, monotone against t + 0..9 days, from a weekday: a then b == a+b (two calls, two bumps, compound string), +n then -n returns; '
-             'named tenors in lower / upper / title case; the same bump from a sibling time on the same date (other microsecond / other time) right afterwards. '
-             'non-trivial = starts on a weekend or crosses one',
+             'named tenors in lower / upper / title case; the same bump from a sibling time on the same date (other microsecond / other time) right afterwards; '
+             'calendar boundary days as starts (28 Feb of a non-leap year, 29 Feb, 30th/31st, 31 Dec, 1 Jan) boosted; one start in eight handed over as pd.Timestamp / datetime64 / date; '
+             'one spelling in seven zero padded. non-trivial = starts on a weekend or crosses one',
         floor=0.4, class_floors={'start_weekend': 0.15, 'n<0': 0.25, 'intraday': 0.3, 'composed': 0.3, 'named_tenor': 0.01, 'named_tenor_mixed_case': 0.003,
-                                 'sibling_same_second': 0.3, 'sibling_other_time': 0.1, 'microseconds_only': 0.03, 'n=0': 0.01}),
+                                 'sibling_same_second': 0.3, 'sibling_other_time': 0.1, 'microseconds_only': 0.03, 'n=0': 0.01,
+                                 'start_feb28_nonleap': 0.013, 'start_feb29': 0.005, 'start_dec31': 0.009, 'start_jan1': 0.06, 'start_30_31': 0.06, 'raw_start': 0.03, 'raw_start=Timestamp': 0.012, 'raw_start=datetime64': 0.012, 'raw_start=date': 0.003, 'zero_padded': 0.04}),
     EnumSub('bday_all_days', enum_bday_days, run_bday_day, strategy=lambda tier: _bday_day_quick, quick=1000, chunks=64,
             rule="every one of the 146097 days 1900-01-01..2299-12-31 at midnight x every n in [-60,60] (one evaluation = one start day = 121 bumps): "
                  "dt_bump(t,'nb') == n-th entry after t in the table of all weekdays; monotone against the following day; from a weekday +n then -n returns to t"),
@@ -895,31 +1232,43 @@ SUBS = [
                  "'ab' then 'bb' == '(a+b)b' as two calls, as two bumps of one call and as one compound string; each also equals the weekday table"),
     Sub('fixed_units', lambda tier: _fixed_case(), run_fixed, quick=4000, thorough=10000,
         rule="start anywhere in 1900-2299 with seconds/microseconds; bump = 'nd','nw','nh','nn','ns' (n in [-60,60], optional '+', either case), int n, or timedelta "
-             '(days, seconds, microseconds), numpy ints; through dt_bump and dt; oracle t + timedelta; +x then -x returns to t; same bump from a sibling time on the same date. '
+             '(days, seconds, microseconds; a quarter of them as pandas Timedelta, mostly with >= 1000 microseconds), numpy ints; through dt_bump and dt; oracle t + timedelta; '
+             '+x then -x returns to t; same bump from a sibling time on the same date; boundary-day starts, raw-typed starts and zero-padded spellings as in bday. '
              'non-trivial = non-zero bump from an intraday start or into another month',
         floor=0.3, class_floors={'int': 0.04, 'npint': 0.04, 'td': 0.05, 'negative': 0.25, 'intraday_unit_crosses_midnight': 0.02, 'zero_bump': 0.02,
-                                 'sibling_same_second': 0.3, 'sibling_other_time': 0.1, 'microseconds_only': 0.03}),
+                                 'sibling_same_second': 0.3, 'sibling_other_time': 0.1, 'microseconds_only': 0.03,
+                                 'pandas_timedelta': 0.011, 'pandas_timedelta_ms': 0.007, 'start_feb28_nonleap': 0.013, 'start_feb29': 0.005, 'start_dec31': 0.006, 'start_jan1': 0.06, 'start_30_31': 0.055, 'raw_start': 0.025, 'raw_start=Timestamp': 0.012, 'raw_start=datetime64': 0.01, 'raw_start=date': 0.003, 'zero_padded': 0.023}),
     Sub('month_units', lambda tier: _month_case(), run_month, quick=4000, thorough=10000,
         rule="midnight start anywhere in 1900-2299 (month ends, leap days over-weighted); 'nm','nq','ny', n in [-60,60]; oracle: month arithmetic by integer division, "
-             'day kept if it exists else excess rolls into the following month (cross-checked with first-of-month + (day-1) days); inverse when day <= 28. '
-             'non-trivial = day of month >= 29 and n != 0',
-        floor=0.15, class_floors={'overflow': 0.04, 'day<=28': 0.3, 'feb29': 0.005}),
+             'day kept if it exists else excess rolls into the following month (cross-checked with first-of-month + (day-1) days); inverse when day <= 28; '
+             'one case in twelve starts on 28 Feb of a non-leap year and lands in the February of a leap year (must stay the 28th); whole-year multiples of n over-weighted; '
+             'raw-typed starts (date / Timestamp / datetime64) and zero-padded spellings. non-trivial = day of month >= 29 and n != 0',
+        floor=0.15, class_floors={'overflow': 0.04, 'day<=28': 0.3, 'feb29': 0.005,
+                                  'feb28_nonleap_to_leap_february': 0.02, 'month_end_to_longer_month': 0.017, 'start_feb28_nonleap': 0.03, 'start_feb29': 0.035, 'start_dec31': 0.007, 'start_jan1': 0.04, 'start_30_31': 0.08, 'raw_start': 0.035, 'raw_start=Timestamp': 0.007, 'raw_start=datetime64': 0.01, 'raw_start=date': 0.02, 'zero_padded': 0.045}),
     EnumSub('month_all_days', enum_month_days, run_month_day, strategy=lambda tier: _month_day_quick, quick=1500, chunks=64,
             rule='every one of the 146097 days at midnight x each of m, q, y x every n in [-60,60] (one evaluation = one (day, unit) = 121 bumps): exact result; '
                  '+n then -n returns to t when day <= 28. non-trivial = day of month >= 29'),
     EnumSub('single_grid', enum_single, run_single, strategy=lambda tier: _single_quick, quick=3000, chunks=32,
             rule="every unit letter x every n in [-60,60] x 50 fixed starts (25 midnight incl. month ends / leap days / Mon..Sun, 25 intraday; midnight only for m/q/y): "
-                 "every spelling ('n', '+n', upper case, int and timedelta for days, timedelta for w/h/n/s, named tenors for 0b..3b) through dt_bump and dt"),
+                 "every spelling ('n', '+n', upper case, zero padded, int and timedelta for days, timedelta for w/h/n/s, named tenors for 0b..3b) through dt_bump and dt"),
     Sub('compound', lambda tier: _compound_case(), run_compound, quick=6000, thorough=30000,
         rule='two- and three-part tenors over all nine unit letters, n in [-60,60] each, optional + / upper case per part, as one string or as separate bumps, '
-             'as one list argument (list left unchanged) or as separate bumps of mixed types (str / int / numpy int / timedelta), through dt_bump and dt; '
+             'as one list argument (list left unchanged, also after the sibling call) or as bumps of mixed types (str / int / numpy int / timedelta / pandas Timedelta) passed separately or inside the one list, through dt_bump and dt; '
              'a share with a part repeated verbatim (adjacent or first == last), with zero parts, and with a sibling start on the same date; '
              'oracle: left fold of the single-part oracles. non-trivial = parts of both signs',
         floor=0.2, class_floors={'has_month': 0.3, 'has_b': 0.15, 'k=3': 0.3, 'month_overflow': 0.006, 'b_from_weekend': 0.03, 'later_part_negative': 0.3,
                                  'duplicate_part': 0.06, 'duplicate_first_last': 0.01, 'zero_part': 0.04, 'order_matters': 0.08, 'bump_types_mixed': 0.06,
-                                 'non_string_bump_first': 0.02, 'how=list': 0.03, 'how=dt_list': 0.03, 'sibling_same_second': 0.1, 'sibling_other_time': 0.03}),
+                                 'non_string_bump_first': 0.02, 'how=list': 0.03, 'how=dt_list': 0.03, 'sibling_same_second': 0.1, 'sibling_other_time': 0.03,
+                                 'how=list_mixed': 0.02, 'how=dt_list_mixed': 0.02, 'list_of_mixed_types': 0.038, 'pandas_timedelta': 0.03, 'start_feb28_nonleap': 0.009, 'start_feb29': 0.0045, 'start_dec31': 0.007, 'start_jan1': 0.06, 'start_30_31': 0.055, 'raw_start': 0.033, 'raw_start=Timestamp': 0.01, 'raw_start=datetime64': 0.008, 'raw_start=date': 0.012, 'zero_padded': 0.07}),
     EnumSub('compound_grid', enum_compound_grid, run_compound_grid, strategy=lambda tier: _compound_grid_quick(), quick=60, chunks=32,
             rule='ALL two-part tenors (81 ordered unit pairs x 121^2 values of n) from 4 starts each, and all 729 ordered unit triples x 9^3 values of n from 8 starts each '
                  '(one evaluation = one unit sequence and start with all its n combinations; an h/n/s part in front of a month-based part is restricted to whole days: '
                  'h in {0, +-24, +-48}, n/s = 0); the spelling (+ sign / case) rotates with the combination; oracle: left fold. non-trivial = some combination mixes signs'),
+    Sub('session', lambda tier: _session_case(), run_session, quick=3000, thorough=15000,
+        rule='one or two start objects and a pool of 2-4 bump objects (str / int / numpy int / timedelta / pandas Timedelta) built ONCE, then 2-4 calls of dt_bump / dt on them whose '
+             'bump lists are prefixes, extensions, permutations or repetitions of the previous call\'s (0-3 bumps per call; the same object may occur twice in a call); bumps as separate '
+             'arguments, as a fresh list, as one compound string, or in ONE caller-owned list object that the caller edits in place between calls (must come back unchanged each time); '
+             'the first call may carry a keyword that has no say over a scalar bump (aggregate=, dialect=, tzinfo=None), the later ones come plain; every call is judged by the left fold '
+             'of the single-part oracles from its own start, so no result may depend on an earlier call. non-trivial = two consecutive calls from the same start object with different expected results',
+        floor=0.18, class_floors={'shared_list': 0.12, 'shared_list_edited_between_calls': 0.07, 'option_keyword': 0.07, 'option_aggregate': 0.055, 'option_dialect': 0.014, 'option_tzinfo': 0.003, 'keyword_first_then_plain': 0.07, 'empty_list': 0.011, 'one_bump_in_a_list': 0.057, 'list_of_mixed_types': 0.05, 'no_bump': 0.033, 'same_bump_object_twice': 0.09, 'prefix_of_previous_call': 0.08, 'extends_previous_call': 0.12, 'permutation_of_previous_call': 0.09, 'permutation_changes_result': 0.012, 'same_bumps_again': 0.064, 'other_start_object': 0.063, 'pandas_timedelta': 0.048, 'one_call_form_throughout': 0.16, 'raw_start': 0.03, 'calls=4': 0.054, 'start_feb28_nonleap': 0.007, 'start_feb29': 0.003, 'start_dec31': 0.0055, 'start_jan1': 0.05, 'start_30_31': 0.054}),
 ]
